@@ -332,17 +332,92 @@ fn s_maps(t: &mut Tape, ctx: &mut Ctx) -> Result<(), Failure> {
     Ok(())
 }
 
+const BIG_SIZES: [&str; 9] = ["65536", "2147483648", "4294967295", "4294967296", "4294967297", "1099511627776", "9223372036854775808", "18446744073709551615", "1000000007"];
+const BIG_BOUNDS: [&str; 5] = ["65536", "2147483648", "4294967296", "1099511627776", "9223372036854775808"];
+
+/// Types whose declared array size / list bound is large, and values of such types that can be
+/// written down without building the array (None, empty list): print-parse round trips. Driven
+/// through text only; nothing here allocates by the declared size.
+fn e_big_sizes(i: u64, ctx: &mut Ctx) -> Result<(), Failure> {
+    let elems = ["u8", "u16", "bool", "(u8, bool)"];
+    let n_arr = (BIG_SIZES.len() * elems.len()) as u64;
+    let (inner, what) = if i < n_arr {
+        (format!("[{}; {}]", elems[(i as usize) % elems.len()], BIG_SIZES[(i as usize) / elems.len()]), "array")
+    } else {
+        let k = (i - n_arr) as usize;
+        (format!("List<{}, {}>", elems[k % elems.len()], BIG_BOUNDS[(k / elems.len()) % BIG_BOUNDS.len()]), "list")
+    };
+    let pf = |what: &str, p: &str, s: &str| Failure::new(format!("panic:{}", panic_site(p)), format!("{what} panicked on `{s}`: {p}"));
+    // the type itself, and wrapped
+    for (wrapped, value) in [(inner.clone(), None), (format!("Option<{inner}>"), Some("None")), (format!("List<{inner}, 2>"), Some("list![]")), (format!("Either<u8, {inner}>"), Some("Left(7)")), (format!("[{inner}; 0]"), Some("[]"))] {
+        if what == "list" && value.is_none() {
+            // an empty list is a value of the bare list type
+        }
+        ctx.evals(1);
+        let ty = match catch(|| ResolvedType::parse_from_str(&wrapped)).map_err(|p| pf("ResolvedType::parse_from_str", &p, &wrapped))? {
+            Ok(t) => t,
+            Err(e) => return Err(Failure::new("c15:valid-type-rejected", format!("the type `{wrapped}` is rejected: {}", crate::pipe::last_line(&e.to_string()))).with(json!({"type": wrapped}))),
+        };
+        let printed = catch(|| ty.to_string()).map_err(|p| pf("ResolvedType::to_string", &p, &wrapped))?;
+        match catch(|| ResolvedType::parse_from_str(&printed)).map_err(|p| pf("ResolvedType::parse_from_str", &p, &printed))? {
+            Ok(t2) if t2 == ty => {}
+            Ok(t2) => return Err(Failure::new("c15:type-roundtrip-differs", format!("`{wrapped}` prints as `{printed}`, which parses to `{t2}`")).with(json!({"type": wrapped}))),
+            Err(e) => return Err(Failure::new("c15:printed-type-does-not-parse", format!("`{wrapped}` prints as `{printed}`, which is rejected: {}", crate::pipe::last_line(&e.to_string()))).with(json!({"type": wrapped}))),
+        }
+        let value = match (value, what) {
+            (None, "list") => Some("list![]"),
+            (v, _) => v,
+        };
+        let Some(vtext) = value else { continue };
+        ctx.evals(1);
+        let v = match catch(|| Value::parse_from_str(vtext, &ty)).map_err(|p| pf("Value::parse_from_str", &p, vtext))? {
+            Ok(v) => v,
+            Err(e) => return Err(Failure::new("c15:valid-value-rejected", format!("`{vtext}` at `{wrapped}` is rejected: {}", crate::pipe::last_line(&e.to_string()))).with(json!({"type": wrapped, "value": vtext}))),
+        };
+        let vp = catch(|| v.to_string()).map_err(|p| pf("Value::to_string", &p, vtext))?;
+        match catch(|| Value::parse_from_str(&vp, &ty)).map_err(|p| pf("Value::parse_from_str", &p, &vp))? {
+            Ok(v2) if v2 == v => {}
+            other => return Err(Failure::new("c15:printed-value-does-not-parse", format!("`{vtext}` at `{wrapped}` prints as `{vp}`, which parses to {:?}", other.map(|x| x.to_string()).map_err(|e| e.to_string()))).with(json!({"type": wrapped}))),
+        }
+        // a module holding it
+        let mut m = HashMap::new();
+        m.insert(simfony::str::WitnessName::from_str_unchecked("A"), v.clone());
+        let wv = WitnessValues::from(m);
+        let text = catch(|| wv.to_string()).map_err(|p| pf("WitnessValues::to_string", &p, &wrapped))?;
+        ctx.evals(1);
+        match catch(|| WitnessValues::parse_from_str(&text)).map_err(|p| pf("WitnessValues::parse_from_str", &p, &text))? {
+            Ok(w2) if w2 == wv => {}
+            Ok(_) => return Err(Failure::new("c15:module-roundtrip-differs", format!("the printed module parses to another map\n{text}")).with(json!({"module": text}))),
+            Err(e) => return Err(Failure::new("c15:printed-module-does-not-parse", format!("the printed module is rejected: {}\n{text}", crate::pipe::last_line(&e.to_string()))).with(json!({"module": text}))),
+        }
+        let js = catch(|| serde_json::to_string(&wv).map_err(|e| e.to_string())).map_err(|p| pf("serde_json::to_string", &p, &wrapped))?;
+        if let Ok(js) = js {
+            ctx.evals(1);
+            match catch(|| serde_json::from_str::<WitnessValues>(&js).map_err(|e| e.to_string())).map_err(|p| pf("serde_json::from_str", &p, &js))? {
+                Ok(w2) if w2 == wv => {}
+                Ok(_) => return Err(Failure::new("c15:json-roundtrip-differs", format!("the JSON form parses to another map\n{js}")).with(json!({"json": js}))),
+                Err(e) => return Err(Failure::new("c15:printed-json-does-not-parse", format!("the JSON form is rejected: {e}\n{js}")).with(json!({"json": js}))),
+            }
+        }
+    }
+    ctx.label(&format!("big-size:{what}"));
+    ctx.nontrivial(digest(&[inner.as_bytes()]));
+    ctx.sample(i, || json!({"type": inner}));
+    Ok(())
+}
+
 pub fn streams() -> Vec<Stream> {
     vec![
         Stream { name: "values", kind: Kind::Tape { cases: |t: Tier| t.pick(800_000, 16_000_000), max_len: 200, f: s_values }, isolate: false },
         Stream { name: "maps", kind: Kind::Tape { cases: |t: Tier| t.pick(100_000, 2_000_000), max_len: 200, f: s_maps }, isolate: false },
+        Stream { name: "big-sizes", kind: Kind::Enum { count: |_| (BIG_SIZES.len() * 4 + BIG_BOUNDS.len() * 4) as u64, complete: |_| true, f: e_big_sizes }, isolate: false },
     ]
 }
 
 pub fn def() -> PropertyDef {
     PropertyDef {
         id: "C15",
-        rule: "stream values: types up to depth 3 over all constructors (tuples <= 4, arrays <= 6, lists <= 16), byte arrays of every length 0..64 alone / nested / inside tuples, options and lists, every integer width; all values when the type has <= 64, else 4 generated ones (boundary-biased); values are built with the Rust constructors. Oracles: Value::parse_from_str(v.to_string(), type) == v; ResolvedType::parse_from_str(ty.to_string()) == ty. stream maps: maps of 0..6 names (random identifiers, half of them reserved words extended by a suffix or with other case) -> printed module parses back to an equal map (WitnessValues and Arguments), prints identically when built in another insertion order (separate HashMaps have separate hash keys), lists names once each in sorted order; a hand-rendered module in another layout and order parses to the same map; a module / JSON text assigning one name twice is rejected; serde_json round trip. evaluations = round trips. Non-trivial = value with >= 2 constructors / map with >= 2 names; distinct by digest.",
+        rule: "stream values: types up to depth 3 over all constructors (tuples <= 4, arrays <= 6, lists <= 16), byte arrays of every length 0..64 alone / nested / inside tuples, options and lists, every integer width; all values when the type has <= 64, else 4 generated ones (boundary-biased); values are built with the Rust constructors. Oracles: Value::parse_from_str(v.to_string(), type) == v; ResolvedType::parse_from_str(ty.to_string()) == ty. stream maps: maps of 0..6 names (random identifiers, half of them reserved words extended by a suffix or with other case) -> printed module parses back to an equal map (WitnessValues and Arguments), prints identically when built in another insertion order (separate HashMaps have separate hash keys), lists names once each in sorted order; a hand-rendered module in another layout and order parses to the same map; a module / JSON text assigning one name twice is rejected; serde_json round trip. stream big-sizes (56 types, complete): array sizes {65536, 2^31, 2^32-1, 2^32, 2^32+1, 2^40, 2^63, 2^64-1, 1000000007} and list bounds {2^16, 2^31, 2^32, 2^40, 2^63} x 4 element types, bare and wrapped in Option / List / Either / [..; 0]: type round trip, and value / module / JSON round trips of the values that can be written without building the array (None, list![], Left(7), []); text-driven, nothing allocates by the declared size. evaluations = round trips. Non-trivial = value with >= 2 constructors / map with >= 2 names; distinct by digest.",
         assumptions: &["cross-process determinism of the printer is exercised by C19's process runs"],
         streams,
         health: &[("values", "domain:exhaustive", 20)],
